@@ -309,3 +309,5 @@ func (w *cdWalker) walkSquashed(v reflect.Value, path []string) {
 		w.points = append(w.points[:n], w.points[n+1:]...)
 	}
 }
+
+func reflectValue(x interface{}) reflect.Value { return reflect.ValueOf(x) }
